@@ -103,6 +103,11 @@ BASE_ASSUME = [
     "the walk observes the server through an in-memory datagram network and the verif-tagged table accessors; "
     "virtual time is testing/synctest (go1.26), 1 model tick = 1 s",
     "every replayed step compares all datagrams received by all endpoints and the projected tables of all clients with the spec",
+    "where the walks list family server / server-rt (engine trace-validation): executions of the real server recorded by drivers that are not derived "
+    "from the spec -- rounds of up to four concurrent operations of different 5-tuples (TLC infers the linearisation), and six clients working at the same "
+    "time in real time, each with its own history (kernel UDP sockets for the IPv4 listener in every other execution), followed by two pipelined hammer phases -- "
+    "are validated against TurnServer.tla (TraceServer.tla); a rejected execution counts for this property only when the class of observation that has to be "
+    "ignored to make it acceptable is one this property pins; the sample is seeded (VERIF_SEED), the real-time part is not reproducible (order-only oracles)",
 ]
 
 # ---- Engine B for the relay server (TraceServer.tla): concurrent rounds, linearised by TLC -------------
@@ -183,6 +188,7 @@ def c08_run(ctx):
     with_server_trace(core_run(["MC_relay", "MC_relayB"], ["GEN_relayA", "GEN_relayB", "GEN_relayD", "GEN_recycle", "GEN_chan3"]))(ctx)
     if not ctx.violations:   # the table invariants of the specification after histories of any length
         ctx.apalache_inductive("ChanInd.tla")
+        ctx.tlaps_prove("ChanProof.tla")   # the same invariant, for arbitrary sets of clients, numbers and peers
 
 
 def c09_run(ctx):
@@ -290,7 +296,8 @@ PROPS = {
     "C08": dict(title="channel bindings are a bijection inside 0x4000-0x7FFF", level="model_checking",
                 run=c08_run,
                 assumptions=BASE_ASSUME + ["ChanInd.tla (Apalache): the table invariants of the specification -- channel bijection, range, nothing survives its allocation -- "
-                                           "are inductive for 3 clients x 4 numbers x 4 peers, i.e. hold after histories of any length (TLC's runs are depth-bounded)"]),
+                                           "are inductive for 3 clients x 4 numbers x 4 peers, i.e. hold after histories of any length (TLC's runs are depth-bounded)",
+                                           "ChanProof.tla (TLAPS): the same inductive invariant proved for arbitrary constant sets (29 obligations), Spec => []IndInv"]),
     "C09": dict(title="no input can crash, wedge or spin an endpoint", level="exploration",
                 run=c09_run,
                 assumptions=["Dispatch.tla is a decision table over message SHAPES (36 for the datagram listener, 13 for the stream listener, 22 for the client's HandleInbound) in three endpoint states; "
